@@ -336,6 +336,7 @@ steps = json.load(open(sys.argv[1]))
 ns = {"ScalingFunction": scales.ScalingFunction, "MelScaling": scales.MelScaling, "BarkScaling": scales.BarkScaling, "WindowFunction": filters.WindowFunction,
       "HannWindow": filters.HannWindow, "PreProcessor": pre.PreProcessor, "Dither": pre.Dither}
 out = []
+BUILT = []
 def mk(kind, vals):
     return {"set": set, "list": list, "tuple": tuple, "frozenset": frozenset, "dict": lambda v: {a: None for a in v}}[kind](vals)
 for st in steps:
@@ -344,9 +345,30 @@ for st in steps:
         def strict_init(self, *args, **kw):
             if not args and "required_argument" not in kw:
                 raise TypeError("REFUSED:" + type(self).__name__)
-        body = {"aliases": mk(kind, vals), "__init__": (strict_init if st[0] == "defstrict" else (lambda self, *a, **k: None)), "scale_to_hertz": (lambda self, s: s),
+            BUILT.append(type(self).__name__)
+        body = {"aliases": mk(kind, vals), "__init__": (strict_init if st[0] == "defstrict" else (lambda self, *a, **k: BUILT.append(type(self).__name__))), "scale_to_hertz": (lambda self, s: s),
                 "hertz_to_scale": (lambda self, h: h), "get_impulse_response": (lambda self, w: None), "apply": (lambda self, *a, **k: None)}
         ns[name] = type(name, (ns[base],), body)
+    elif st[0] == "nested":
+        # the alias used where a bank takes its scaling function (bare string / {"name": ..} / {"alias": ..}): the classes
+        # defined by this script map Hz to themselves, so their banks have centres equally spaced in Hz
+        import numpy as np
+        _, bank, form, alias = st
+        arg = alias if form == "string" else {form: alias}
+        del BUILT[:]
+        try:
+            b = {"tri": filters.TriangularOverlappingFilterBank, "gabor": filters.GaborFilterBank, "gammatone": filters.ComplexGammatoneFilterBank}[bank](
+                arg, num_filts=5, low_hz=100.0, high_hz=3000.0, sampling_rate=8000)
+            d = np.diff(np.asarray(b.centers_hz, dtype=float))
+            linear = bool(np.max(np.abs(d - d.mean())) < 1e-6 * d.mean())
+            # which scale class was instantiated for the bank, confirmed by the layout it produced
+            out.append((BUILT[-1] if linear else "LAYOUT-NOT-OF:" + BUILT[-1]) if BUILT else ("stock" if not linear else "LAYOUT-LINEAR-WITHOUT-USER-CLASS"))
+        except ValueError as e:
+            out.append("ValueError")
+        except TypeError as e:
+            out.append("TypeError:" + str(e).split("REFUSED:")[-1] if "REFUSED:" in str(e) else "TypeError")
+        except Exception as e:
+            out.append("EXC:" + repr(e)[:100])
     else:
         _, root, alias = st
         try:
@@ -382,7 +404,7 @@ def expected_for(steps):
             if st[0] == "defstrict":
                 strict.add(st[1])
         else:
-            root, alias = st[1], st[2]
+            root, alias = (st[1], st[2]) if st[0] == "lookup" else ("ScalingFunction", st[3])
 
             def under(c):
                 while c is not None:
@@ -398,6 +420,9 @@ def expected_for(steps):
                 continue
             # the winner is built without arguments: a class whose constructor needs one refuses with TypeError
             # (the search must not fall back to a shadowed class)
+            if st[0] == "nested":
+                exp.append(("TypeError:" + win if win in strict else "stock" if win in BUILTIN_ALIAS else win, win))
+                continue
             exp.append(("TypeError:" + win if win in strict else win, win))
     return exp, parent, order
 
@@ -422,6 +447,9 @@ DIRECTED = {
     "unknown_after_registration": [["def", "A", "PreProcessor", "set", ["k"]], ["lookup", "PreProcessor", ""], ["lookup", "PreProcessor", "K"]],
     "winner_refuses_arguments": [["defstrict", "X", "ScalingFunction", "set", ["mel"]], ["lookup", "ScalingFunction", "mel"], ["lookup", "MelScaling", "mel"],
                                  ["def", "Y", "ScalingFunction", "set", ["bark"]], ["defstrict", "Z", "Y", "set", ["bark"]], ["lookup", "ScalingFunction", "bark"]],
+    "nested_shadowed_scale": [["nested", "tri", "string", "mel"], ["def", "X", "ScalingFunction", "set", ["mel"]], ["nested", "tri", "string", "mel"], ["nested", "gabor", "name", "mel"],
+                              ["nested", "gammatone", "alias", "mel"], ["nested", "gabor", "string", "bark"], ["def", "Y", "BarkScaling", "list", ["bark"]],
+                              ["nested", "gammatone", "string", "bark"], ["nested", "tri", "name", "bark"], ["lookup", "ScalingFunction", "bark"]],
     "shadow_own_parent_then_sibling": [["def", "P", "PreProcessor", "set", ["p"]], ["def", "C", "P", "set", ["p"]], ["def", "S", "PreProcessor", "set", ["p"]],
                                        ["lookup", "PreProcessor", "p"], ["lookup", "P", "p"]],
 }
@@ -444,6 +472,8 @@ def random_scenario(rng):
         names.append(name)
     for a in pool:
         steps.append(["lookup", root, a])
+        if root == "ScalingFunction" and rng.random() < 0.5:
+            steps.append(["nested", str(rng.choice(["tri", "gabor", "gammatone"])), str(rng.choice(["string", "name", "alias"])), a])
     steps.append(["lookup", str(rng.choice(names)), str(rng.choice(pool))])
     return steps
 
@@ -460,12 +490,22 @@ def run_scenario(mon, rec, name, steps, workdir):
         rec.inconc("scenario runner failed: %r" % (e,))
         return
     want, parent, order = expected_for(steps)
-    lookups = [s for s in steps if s[0] == "lookup"]
+    lookups = [s for s in steps if s[0] in ("lookup", "nested")]
     rec.count("scenarios")
     collision = False
     for (st, g, (w, wcls)) in zip(lookups, got, want):
         rec.ev()
         rec.count("scenario_lookups")
+        if st[0] == "nested":
+            rec.count("scenario_nested_scale_lookups")
+            if g != w:
+                gcls = g.split(":")[-1]
+                if g == "stock":
+                    gcls = next((b for b, al in BUILTIN_ALIAS.items() if st[3] in al and PARENT0[b] == "ScalingFunction"), "stock")
+                mon.v("scenario %s: a %s bank given scaling_function %s %r uses %s; the class registered last with that alias is %s" % (
+                    name, st[1], st[2], st[3], "the library's own scale" if g == "stock" else g, wcls), check="shadowing",
+                    scenario=name, steps=steps, root="ScalingFunction", alias=st[3], got=gcls, got_outcome=g, want=wcls, want_outcome=w, parent=parent, order=order, nested=True)
+            continue
         if g != w:
             mon.v("scenario %s: %s.from_alias(%r) gave %s; the class registered last with that alias is %s%s" % (
                 name, st[1], st[2], g, wcls, " (whose constructor refuses the call: TypeError expected)" if w.startswith("TypeError") else ""), check="shadowing", scenario=name,
